@@ -349,4 +349,26 @@ example : 0 < exCfg.nodeSep ∧ SizeHypStrict exCfg 10 10 ∧ ForestAll (SizeHyp
 example : (sideMoved exCfg (initSt exCfg 0 10 10 1 false) ⟨[⟨-5, 5, [⟨1, ⟨0, 0⟩, 10, 10⟩]⟩], -5, 5⟩).levels.map
     (fun l => (l.lo, l.hi)) = [(10, 20)] := by decide +kernel
 
+/-- a loop state with one c-tree already placed on the positive side, and a second leaf c-tree to be placed -/
+def exLeaf (i : Nat) : Lay := layoutWith isomOrder exCfg true i 10 10 .nil
+def exSt1 : St := place exCfg (initSt exCfg 0 10 10 1 false) (exLeaf 1)
+
+-- non-vacuity of siblings_separated_nodes: both invariants hold jointly (P := SizeNonneg) in a state where the common
+-- rank carries a node on either side (node 1 already placed at x = 15, node 2 now placed at x = −15)
+example : StOK exCfg SizeNonneg exSt1 ∧
+    LayOK exCfg.dir (2 * exCfg.nodeSep) (gstep exCfg) SizeNonneg (exLeaf 2) ∧
+    ((sideMoved exCfg exSt1 (exLeaf 2)).levels.zip exSt1.rest).map
+      (fun x => (x.1.nodes.map (fun n => (n.id, n.c.x)), x.2.nodes.map (fun n => (n.id, n.c.x))))
+      = [([(2, -15)], [(1, 15)])] := by
+  have hns : (0 : Rat) ≤ exCfg.nodeSep := by norm_num [exCfg]
+  have hsz : SizeNonneg 10 10 := by norm_num [SizeNonneg]
+  have hl : ∀ i, LayOK exCfg.dir (2 * exCfg.nodeSep) (gstep exCfg) SizeNonneg (exLeaf i) :=
+    fun i => layoutWith_ok isomOrder hns (fun _ _ h => h) true i 10 10 .nil hsz trivial
+  exact ⟨place_ok hns (initSt_ok exCfg SizeNonneg 0 10 10 1 false hsz (by norm_num) (by norm_num)) (hl 1), hl 2,
+    by decide +kernel⟩
+
+-- non-vacuity of tuple_sort_is_determined: a two-element sorted permutation
+example : ["a", "b"].Perm ["b", "a"] ∧ ["a", "b"].Pairwise (fun a b => ¬ b < a) :=
+  ⟨List.Perm.swap _ _ _, by decide⟩
+
 end AdaptaVerif.Props.C19Layout
